@@ -1,5 +1,5 @@
 (* C16 - Cargo features only add members; they never change the wire format of the rest. *)
-From Ctap Require Import Base Schema Typed WellTyped Inst Tables Limits Extends SerP RoundTripP MonoP LiftP ObEnvRt.
+From Ctap Require Import Base Schema Typed WellTyped Inst Tables Limits Extends SerP RoundTripP MonoP LiftP ObEnvRt Deps ObDeps.
 Local Open Scope string_scope.
 Local Open Scope Z_scope.
 
@@ -94,6 +94,10 @@ Qed.
 Example c16_ex : subset_feats ["large-blobs"] ["get-info-full"; "large-blobs"] = true.
 Proof. reflexivity. Qed.
 
+(* the third-party crates the model represents by hand are pinned at the versions it was written against *)
+Theorem c16_modelled_dependencies_pinned : deps_hold lock_versions cargo_deps = true.
+Proof. exact generated_deps. Qed.
+
 Eval vm_compute in "ASSUMPTIONS c16_generated_extends". Print Assumptions c16_generated_extends.
 Eval vm_compute in "ASSUMPTIONS c16_spec_extends". Print Assumptions c16_spec_extends.
 Eval vm_compute in "ASSUMPTIONS c16_std_arbitrary_irrelevant". Print Assumptions c16_std_arbitrary_irrelevant.
@@ -105,3 +109,4 @@ Eval vm_compute in "ASSUMPTIONS c16_extension_preserves_decoding". Print Assumpt
 Eval vm_compute in "ASSUMPTIONS c16_lift_record". Print Assumptions c16_lift_record.
 Eval vm_compute in "ASSUMPTIONS c16_lift_identity". Print Assumptions c16_lift_identity.
 Eval vm_compute in "ASSUMPTIONS c16_generated_params_plain". Print Assumptions c16_generated_params_plain.
+Eval vm_compute in "ASSUMPTIONS c16_modelled_dependencies_pinned". Print Assumptions c16_modelled_dependencies_pinned.
